@@ -691,7 +691,10 @@ def build_cases(ctx, lw):
     # ---- boundary of the descriptor ranges: the value 0 passes PositiveParameter
     req["boundary"] = [{"cls": "Isotropic", "dim": 3, "params": {"E": 0.0, "v": 0.3}},
                        {"cls": "Isotropic", "dim": 2, "params": {"E": 0.0, "v": 0.3}},
-                       {"cls": "TransverselyIsotropic", "dim": 3, "params": {"El": 0.0, "Et": 1.0, "Gl": 1.0, "vl": 0.1, "vt": 0.1}}]
+                       {"cls": "TransverselyIsotropic", "dim": 3, "params": {"El": 0.0, "Et": 1.0, "Gl": 1.0, "vl": 0.1, "vt": 0.1}},
+                       # Anisotropic 2-D with axis1 = z: the extracted 3x3 block R M R^T is singular (C11_aniso_oop.v): no law may come out
+                       {"cls": "Anisotropic", "dim": 2, "params": {"C": [[4.0, 1.0, 0.0], [1.0, 3.0, 0.0], [0.0, 0.0, 2.0]], "useVoigtNotation": False,
+                                                                    "axis1": [0.0, 0.0, 1.0], "axis2": [1.0, 0.0, 0.0]}}]
     return req, meta
 
 
@@ -1038,7 +1041,7 @@ def correspondence(ctx, lw, pm):
     for c, r in zip(req["boundary"], impl["boundary"]):
         ctx.note_case("boundary:%s:%d" % (c["cls"], c["dim"]))
         if "raises" not in r:
-            viol.append(("boundary-zero-modulus:%s" % c["cls"], "%s with a zero modulus returned a law instead of raising: %s" % (c["cls"], str(r["C"])[:100]), {"case": c}))
+            viol.append(("boundary-degenerate:%s" % c["cls"], "%s with degenerate data (zero modulus / singular 2-D frame) returned a law instead of raising: %s" % (c["cls"], str(r["C"])[:100]), {"case": c}))
     ctx.cov["corr_distribution"] = dist
     ctx.cov["corr_tolerance"] = TOL
     ctx.cov["boundary_zero_modulus"] = [r.get("raises", "returned") for r in impl["boundary"]]
@@ -1100,7 +1103,7 @@ def run(ctx):
     ctx.cov["conditional_spd_conditions"] = {
         "TransverselyIsotropic": "El,Et,Gl <> 0 and (1-vt)*El - 2*vl^2*Et > 0 (kt > 0; not enforced by the constructor)",
         "Orthotropic": "all moduli <> 0, E3*v23^2 < E2 (asserted in _Behavior) and c_ij denominator < 0 (not enforced)"}
-    ctx.copy_props("C11/C11_wf.v", "C11/C11_laws.v", "C11/C11_pmat.v", "C11/C11_pmat_norm.v", "C11/C11_aniso.v", "C11/C11_aniso3d.v", "C11/C11_lazy.v", "C11/C11_rot.v", "C11/C11_rotinv.v", "C11/C11_rotinv_laws.v", "C11/C11_spdiff.v", "C11/C11_pmat2.v", "C11/C11_aniso_spd.v")
+    ctx.copy_props("C11/C11_wf.v", "C11/C11_laws.v", "C11/C11_pmat.v", "C11/C11_pmat_norm.v", "C11/C11_aniso.v", "C11/C11_aniso3d.v", "C11/C11_lazy.v", "C11/C11_rot.v", "C11/C11_rotinv.v", "C11/C11_rotinv_laws.v", "C11/C11_spdiff.v", "C11/C11_pmat2.v", "C11/C11_aniso_spd.v", "C11/C11_aniso_oop.v")
     res = {}
     holder = {}
 
@@ -1132,7 +1135,8 @@ def run(ctx):
                 dag.update({"laws": (["C11_laws.v"], []), "spdiff": (["C11_spdiff.v"], ["laws"]),
                             "aniso": (["C11_aniso.v"], []), "aniso3d": (["C11_aniso3d.v"], []),
                             "rotlaws": (["C11_rotinv_laws.v"], ["pmat", "laws", "rotinv"]),
-                            "anisospd": (["C11_aniso_spd.v"], ["pmat", "rot", "aniso", "aniso3d"])})
+                            "anisospd": (["C11_aniso_spd.v"], ["pmat", "rot", "aniso", "aniso3d"]),
+                            "anisooop": (["C11_aniso_oop.v"], ["anisospd"])})
     if not (coq_ok and lw is not None):
         ctx.obligation("coqc:skipped:law-theorems", False, "translation failed: the theorem files were not compiled against this tree")
     done = {k: threading.Event() for k in dag}
@@ -1182,7 +1186,7 @@ def run(ctx):
     # ---- correspondence (+ property predicates on the implementation's outputs = the search) ran in parallel
     viol = holder.get("viol")
     # ---- other broken proofs: report (the predicates above give the failing input if the property is violated)
-    for name in ("laws", "spdiff", "pmat", "pmat2", "lazy", "aniso", "rot", "rotinv", "rotlaws", "anisospd"):
+    for name in ("laws", "spdiff", "pmat", "pmat2", "lazy", "aniso", "rot", "rotinv", "rotlaws", "anisospd", "anisooop"):
         r = res.get(name)
         if r is not None and not r.ok:
             ctx.violation("proof-broken:%s" % r.failed_file,
